@@ -455,236 +455,267 @@ def run(ck: Check):
                "sort_types_direct": "types_direct", "reset": "reset", "imports": "imports"}
 
     # ================================================================== A. the modelled cores
-    N = ck.n(1, 4)
-    ops, kinds = [], []
+    # (runs in a background thread, with its own generator, while the pipeline sweep below keeps the other cores busy)
+    import random
+    import threading
+    _lock = threading.Lock()
+    _failure = ck.failure
 
-    def add(kind, op):
-        ops.append(op)
-        kinds.append(kind)
-        dist[kind] = dist.get(kind, 0) + 1
+    def _locked_failure(*a, **k):
+        with _lock:
+            return _failure(*a, **k)
 
-    for o in ([rp.get("op"), rp.get("a"), rp.get("b")] if rp is not None else []):
-        if isinstance(o, dict) and o.get("op") in KIND_OF:
-            add(KIND_OF[o["op"]], {k: v for k, v in o.items() if k != "of"})
-    gen_cores = rp is None
-    for _ in range(ck.n(90, 480) if gen_cores else 0):
-        add("scc", {"op": "scc", "edges": g_graph(r)})
-    for _ in range(120 * N if gen_cores else 0):
-        add("topo", {"op": "topo", "data": g_topo(r)})
-    for _ in range(ck.n(70, 360) if gen_cores else 0):
-        specs = g_classes(r)
-        op = {"op": "clusters", "classes": specs}
-        if r.random() < 0.7:
-            qs = [s["qname"] for s in specs]
-            op["sort_group"] = r.sample(qs, r.randint(1, len(qs)))
-        add("clusters", op)
-    for _ in range(50 * N if gen_cores else 0):
-        add("class_list", {"op": "class_list", "classes": g_classes(r)})
-    for _ in range(80 * N if gen_cores else 0):
-        add("types", {"op": "types", "types": g_types(r)})
-    add("types_direct", {"op": "sort_types_direct", "order": ["bytes", "object"]})
-    add("types_direct", {"op": "sort_types_direct", "order": ["object", "bytes"]})
-    add("types_direct", {"op": "sort_types_direct", "order": ["str", "object", "int", "bytes"]})
-    for _ in range(80 * N if gen_cores else 0):
-        base, attrs = g_reset(r)
-        add("reset", {"op": "reset", "base": base, "attrs": attrs})
-        if attrs and r.random() < 0.5:  # the same class under another (injective, non-zero) labelling of the ids
-            labs = sorted({a for a in attrs if a})
-            img = r.sample(range(10 ** 13, 10 ** 13 + 1000), len(labs))
-            m = dict(zip(labs, img))
-            add("reset_relabel", {"op": "reset", "base": base, "attrs": [m.get(a, a) for a in attrs], "of": len(ops) - 1})
-    add("reset", {"op": "reset", "base": None, "attrs": [11, 11, 12, 12]})
-    add("reset", {"op": "reset", "base": None, "attrs": [7, 7, 7, 7]})  # = the collision witness relabelled by (fun _ => 7)
-    for _ in range(50 * N if gen_cores else 0):
-        add("imports", {"op": "imports", "imports": g_imports(r)})
+    ck.failure = _locked_failure
 
-    with cf.ThreadPoolExecutor(max_workers=8) as ex:
-        core_res = list(ex.map(lambda s: run_impl("impl_c12.py", {"ops": ops}, timeout=1200, with_shims=True, hashseed=s), core_seeds))
-    per_seed = [cr["results"] for cr in core_res]
-    ck.cov["evaluations"] += len(ops) * len(core_seeds)
-    for si, res in enumerate(per_seed):
-        for op, x in zip(ops, res):
-            if "harness_error" in x:
-                raise RuntimeError("impl_c12 failed on %s: %s" % (op["op"], x["trace"]))
+    def cores_part(r):
+        N = ck.n(1, 4)
+        ops, kinds = [], []
 
-    def idx(kind):
-        return [i for i, k in enumerate(kinds) if k == kind]
+        def add(kind, op):
+            ops.append(op)
+            kinds.append(kind)
+            dist[kind] = dist.get(kind, 0) + 1
 
-    coq_times = {}
+        for o in ([rp.get("op"), rp.get("a"), rp.get("b")] if rp is not None else []):
+            if isinstance(o, dict) and o.get("op") in KIND_OF:
+                add(KIND_OF[o["op"]], {k: v for k, v in o.items() if k != "of"})
+        gen_cores = rp is None
+        if gen_cores:
+            # corpus: operations of earlier violations run first
+            rdir0 = os.path.join(ROOT, "replays", ck.pid)
+            for fn in sorted(os.listdir(rdir0)) if os.path.isdir(rdir0) else []:
+                try:
+                    with open(os.path.join(rdir0, fn)) as f:
+                        old = json.load(f).get("replay") or {}
+                    for o in (old.get("op"), old.get("a") if isinstance(old.get("a"), dict) and "op" in old.get("a", {}) else None):
+                        if isinstance(o, dict) and o.get("op") in KIND_OF:
+                            add(KIND_OF[o["op"]], {k: v for k, v in o.items() if k != "of"})
+                except Exception:  # noqa
+                    pass
+        for _ in range(ck.n(90, 480) if gen_cores else 0):
+            add("scc", {"op": "scc", "edges": g_graph(r)})
+        for _ in range(120 * N if gen_cores else 0):
+            add("topo", {"op": "topo", "data": g_topo(r)})
+        for _ in range(ck.n(70, 360) if gen_cores else 0):
+            specs = g_classes(r)
+            op = {"op": "clusters", "classes": specs}
+            if r.random() < 0.7:
+                qs = [s["qname"] for s in specs]
+                op["sort_group"] = r.sample(qs, r.randint(1, len(qs)))
+            add("clusters", op)
+        for _ in range(50 * N if gen_cores else 0):
+            add("class_list", {"op": "class_list", "classes": g_classes(r)})
+        for _ in range(80 * N if gen_cores else 0):
+            add("types", {"op": "types", "types": g_types(r)})
+        add("types_direct", {"op": "sort_types_direct", "order": ["bytes", "object"]})
+        add("types_direct", {"op": "sort_types_direct", "order": ["object", "bytes"]})
+        add("types_direct", {"op": "sort_types_direct", "order": ["str", "object", "int", "bytes"]})
+        for _ in range(80 * N if gen_cores else 0):
+            base, attrs = g_reset(r)
+            add("reset", {"op": "reset", "base": base, "attrs": attrs})
+            if attrs and r.random() < 0.5:  # the same class under another (injective, non-zero) labelling of the ids
+                labs = sorted({a for a in attrs if a})
+                img = r.sample(range(10 ** 13, 10 ** 13 + 1000), len(labs))
+                m = dict(zip(labs, img))
+                add("reset_relabel", {"op": "reset", "base": base, "attrs": [m.get(a, a) for a in attrs], "of": len(ops) - 1})
+        add("reset", {"op": "reset", "base": None, "attrs": [11, 11, 12, 12]})
+        add("reset", {"op": "reset", "base": None, "attrs": [7, 7, 7, 7]})  # = the collision witness relabelled by (fun _ => 7)
+        for _ in range(50 * N if gen_cores else 0):
+            add("imports", {"op": "imports", "imports": g_imports(r)})
 
-    def coq(tag, ctype, pred, items, terms, shard=50):
-        t0 = time.time()
-        bad = coq_bad_indices("c12_" + tag, IMPORTS, "", ctype, pred, terms, shard=shard)
-        coq_times[tag] = [len(terms), round(time.time() - t0, 1)]
-        return [items[i] for i in bad]
+        with cf.ThreadPoolExecutor(max_workers=8) as ex:
+            core_res = list(ex.map(lambda s: run_impl("impl_c12.py", {"ops": ops}, timeout=1200, with_shims=True, hashseed=s), core_seeds))
+        per_seed = [cr["results"] for cr in core_res]
+        core_evals = len(ops) * len(core_seeds)
+        for si, res in enumerate(per_seed):
+            for op, x in zip(ops, res):
+                if "harness_error" in x:
+                    raise RuntimeError("impl_c12 failed on %s: %s" % (op["op"], x["trace"]))
 
-    def err_of(x):
-        e = x.get("err")
-        if e is not None and e not in ERR:
-            return "other:" + e
-        return e
+        def idx(kind):
+            return [i for i, k in enumerate(kinds) if k == kind]
 
-    # ---- scc: model == implementation for the iteration orders it really used; spec on its output
-    items, terms, oitems, oterms = [], [], [], []
-    for si, res in enumerate(per_seed):
-        for i in idx("scc"):
-            x = res[i]
-            e = err_of(x)
-            if e and e.startswith("other:"):
-                ck.failure("scc-unexpected-exception", f"strongly_connected_components raised {e}", {"op": ops[i], "impl": x, "seed": core_seeds[si]})
-                continue
-            items.append((si, i))
-            terms.append(f"({c_lstr(x['vorder'])}, {c_dict(ops[i]['edges'])}, {c_sum(c_llstr(x.get('comps', [])), e)})")
-            distinct.add(("scc", i, tuple(x["vorder"])))
-            if e is None:
-                oitems.append((si, i))
-                oterms.append(f"({c_dict(ops[i]['edges'])}, {c_llstr(x['comps'])})")
-    for si, i in coq("scc_agree", "list str * list (str * list str) * (list (list str) + nat)", "agree_scc", items, terms):
-        ck.failure("corr-scc", f"model and implementation disagree on strongly_connected_components (seed {core_seeds[si]})",
-                   {"op": ops[i], "impl": per_seed[si][i], "hashseed": core_seeds[si]})
-    for si, i in coq("scc_oracle", "list (str * list str) * list (list str)", "oracle_scc", oitems, oterms):
-        ck.failure("scc-not-the-components", f"strongly_connected_components output is not the partition into strongly connected "
-                   f"components in reverse topological order (seed {core_seeds[si]})",
-                   {"op": ops[i], "impl": per_seed[si][i], "hashseed": core_seeds[si]})
-    # the property on this core: same partition under every seed
-    items, terms = [], []
-    for i in idx("scc"):
-        a = per_seed[0][i]
-        for si in range(1, len(per_seed)):
-            b = per_seed[si][i]
-            if ("err" in a) != ("err" in b) or a.get("err") != b.get("err"):
-                ck.failure("scc-seed-dependent", "exception depends on the hash seed", {"op": ops[i], "a": a, "b": b})
-            elif "err" not in a:
-                items.append((si, i))
-                terms.append(f"({c_llstr(a['comps'])}, {c_llstr(b['comps'])})")
-    for si, i in coq("scc_same", "list (list str) * list (list str)", "oracle_scc_same", items, terms):
-        ck.failure("scc-seed-dependent", f"components differ between hash seeds {core_seeds[0]} and {core_seeds[si]}",
-                   {"op": ops[i], "seed_a": core_seeds[0], "a": per_seed[0][i], "seed_b": core_seeds[si], "b": per_seed[si][i]})
-    ck.cov["scc_vertex_orders_seen"] = len({d for d in distinct if d[0] == "scc"})
+        coq_times = {}
 
-    # ---- plain-valued cores: identical under every seed, then model == implementation (seed 0)
-    def same_everywhere(kind, key):
-        for i in idx(kind):
-            a = key(per_seed[0][i])
-            for si in range(1, len(per_seed)):
-                b = key(per_seed[si][i])
-                if a != b:
-                    ck.failure(kind + "-seed-dependent", f"{kind}: result differs between hash seeds {core_seeds[0]} and {core_seeds[si]}",
-                               {"op": ops[i], "seed_a": core_seeds[0], "a": a, "seed_b": core_seeds[si], "b": b})
+        def coq(tag, ctype, pred, items, terms, shard=50):
+            t0 = time.time()
+            bad = coq_bad_indices("c12_" + tag, IMPORTS, "", ctype, pred, terms, shard=shard)
+            coq_times[tag] = [len(terms), round(time.time() - t0, 1)]
+            return [items[i] for i in bad]
 
-    same_everywhere("topo", lambda x: (x.get("ok"), x.get("err")))
-    items = idx("topo")
-    terms = [f"({c_dict(ops[i]['data'])}, {c_sum(c_lstr(per_seed[0][i].get('ok', [])), err_of(per_seed[0][i]))})" for i in items]
-    for i in coq("topo_agree", "list (str * list str) * (list str + nat)", "agree_topo", items, terms):
-        ck.failure("corr-toposort", "model and implementation disagree on toposort_flatten", {"op": ops[i], "impl": per_seed[0][i]})
-    # the model on a shuffled presentation of the same dict of sets (instance of the theorem)
-    sh_terms = []
-    for i in items:
-        d = [[k, list(v)] for k, v in ops[i]["data"]]
-        r.shuffle(d)
-        for kv in d:
-            r.shuffle(kv[1])
-        sh_terms.append(f"({c_dict(ops[i]['data'])}, {c_dict(d)})")
-        distinct.add(("topo", i))
-    for i in coq("topo_same", "list (str * list str) * list (str * list str)", "model_topo_same", items, sh_terms):
-        ck.failure("model-toposort-order-dependent", "the model contradicts C12_toposort_flatten_perm_invariant", {"op": ops[i]})
-
-    # ---- clusters: sort_classes, SCC inside the handler, final modules
-    same_everywhere("clusters", lambda x: (x.get("modules"), x.get("sorted_group"), (x.get("run_err") or {}).get("err"),
-                                           (x.get("sorted_group_err") or {}).get("err")))
-    items, terms, sitems, sterms = [], [], [], []
-    for si, res in enumerate(per_seed):
-        for i in idx("clusters"):
-            x = res[i]
-            e = (x.get("run_err") or {}).get("err")
+        def err_of(x):
+            e = x.get("err")
             if e is not None and e not in ERR:
-                ck.failure("clusters-unexpected-exception", f"DesignateClassPackages raised {e}", {"op": ops[i], "impl": x})
-                continue
-            mods = clist(x.get("modules", []), lambda m: f"({cstr(m[0])}, {copt(m[1], cstr)})", "(str * option str)")
-            names = clist(x["names"], lambda m: f"({cstr(m[0])}, {cstr(m[1])})", "(str * str)")
-            items.append((si, i))
-            terms.append(f"({c_lstr(x['vorder'])}, {c_dict(x['E'])}, {c_dict(x['D'])}, {names}, {c_sum(mods, e)})")
-            distinct.add(("clusters", i, tuple(x["vorder"])))
-            if "sort_group" in ops[i] and si == 0:
-                ge = (x.get("sorted_group_err") or {}).get("err")
-                sitems.append((si, i))
-                sterms.append(f"({c_dict(x['D'])}, {c_lstr(ops[i]['sort_group'])}, {c_sum(c_lstr(x.get('sorted_group', [])), ge)})")
-    for si, i in coq("clusters_agree", "list str * list (str * list str) * list (str * list str) * list (str * str) * (list (str * option str) + nat)",
-                     "agree_clusters", items, terms, shard=40):
-        ck.failure("corr-clusters", f"model and implementation disagree on group_by_strong_components (seed {core_seeds[si]})",
-                   {"op": ops[i], "impl": per_seed[si][i], "hashseed": core_seeds[si]})
-    for si, i in coq("sortcls_agree", "list (str * list str) * list str * (list str + nat)", "agree_sort_classes", sitems, sterms):
-        ck.failure("corr-sort-classes", "model and implementation disagree on sort_classes", {"op": ops[i], "impl": per_seed[si][i]})
+                return "other:" + e
+            return e
 
-    same_everywhere("class_list", lambda x: (x.get("ok"), x.get("err")))
-    items = idx("class_list")
-    terms = [f"({c_dict(per_seed[0][i]['D'])}, {c_lstr([s['qname'] for s in ops[i]['classes']])}, "
-             f"{c_sum(c_lstr(per_seed[0][i].get('ok', [])), err_of(per_seed[0][i]))})" for i in items]
-    for i in coq("classlist_agree", "list (str * list str) * list str * (list str + nat)", "agree_class_list", items, terms):
-        ck.failure("corr-class-list", "model and implementation disagree on create_class_list", {"op": ops[i], "impl": per_seed[0][i]})
+        # ---- scc: model == implementation for the iteration orders it really used; spec on its output
+        items, terms, oitems, oterms = [], [], [], []
+        for si, res in enumerate(per_seed):
+            for i in idx("scc"):
+                x = res[i]
+                e = err_of(x)
+                if e and e.startswith("other:"):
+                    ck.failure("scc-unexpected-exception", f"strongly_connected_components raised {e}", {"op": ops[i], "impl": x, "seed": core_seeds[si]})
+                    continue
+                items.append((si, i))
+                terms.append(f"({c_lstr(x['vorder'])}, {c_dict(ops[i]['edges'])}, {c_sum(c_llstr(x.get('comps', [])), e)})")
+                distinct.add(("scc", i, tuple(x["vorder"])))
+                if e is None:
+                    oitems.append((si, i))
+                    oterms.append(f"({c_dict(ops[i]['edges'])}, {c_llstr(x['comps'])})")
+        for si, i in coq("scc_agree", "list str * list (str * list str) * (list (list str) + nat)", "agree_scc", items, terms):
+            ck.failure("corr-scc", f"model and implementation disagree on strongly_connected_components (seed {core_seeds[si]})",
+                       {"op": ops[i], "impl": per_seed[si][i], "hashseed": core_seeds[si]})
+        for si, i in coq("scc_oracle", "list (str * list str) * list (list str)", "oracle_scc", oitems, oterms):
+            ck.failure("scc-not-the-components", f"strongly_connected_components output is not the partition into strongly connected "
+                       f"components in reverse topological order (seed {core_seeds[si]})",
+                       {"op": ops[i], "impl": per_seed[si][i], "hashseed": core_seeds[si]})
+        # the property on this core: same partition under every seed
+        items, terms = [], []
+        for i in idx("scc"):
+            a = per_seed[0][i]
+            for si in range(1, len(per_seed)):
+                b = per_seed[si][i]
+                if ("err" in a) != ("err" in b) or a.get("err") != b.get("err"):
+                    ck.failure("scc-seed-dependent", "exception depends on the hash seed", {"op": ops[i], "a": a, "b": b})
+                elif "err" not in a:
+                    items.append((si, i))
+                    terms.append(f"({c_llstr(a['comps'])}, {c_llstr(b['comps'])})")
+        for si, i in coq("scc_same", "list (list str) * list (list str)", "oracle_scc_same", items, terms):
+            ck.failure("scc-seed-dependent", f"components differ between hash seeds {core_seeds[0]} and {core_seeds[si]}",
+                       {"op": ops[i], "seed_a": core_seeds[0], "a": per_seed[0][i], "seed_b": core_seeds[si], "b": per_seed[si][i]})
+        ck.cov["scc_vertex_orders_seen"] = len({d for d in distinct if d[0] == "scc"})
 
-    # ---- native types
-    items, terms = [], []
-    for si, res in enumerate(per_seed):
+        # ---- plain-valued cores: identical under every seed, then model == implementation (seed 0)
+        def same_everywhere(kind, key):
+            for i in idx(kind):
+                a = key(per_seed[0][i])
+                for si in range(1, len(per_seed)):
+                    b = key(per_seed[si][i])
+                    if a != b:
+                        ck.failure(kind + "-seed-dependent", f"{kind}: result differs between hash seeds {core_seeds[0]} and {core_seeds[si]}",
+                                   {"op": ops[i], "seed_a": core_seeds[0], "a": a, "seed_b": core_seeds[si], "b": b})
+
+        same_everywhere("topo", lambda x: (x.get("ok"), x.get("err")))
+        items = idx("topo")
+        terms = [f"({c_dict(ops[i]['data'])}, {c_sum(c_lstr(per_seed[0][i].get('ok', [])), err_of(per_seed[0][i]))})" for i in items]
+        for i in coq("topo_agree", "list (str * list str) * (list str + nat)", "agree_topo", items, terms):
+            ck.failure("corr-toposort", "model and implementation disagree on toposort_flatten", {"op": ops[i], "impl": per_seed[0][i]})
+        # the model on a shuffled presentation of the same dict of sets (instance of the theorem)
+        sh_terms = []
+        for i in items:
+            d = [[k, list(v)] for k, v in ops[i]["data"]]
+            r.shuffle(d)
+            for kv in d:
+                r.shuffle(kv[1])
+            sh_terms.append(f"({c_dict(ops[i]['data'])}, {c_dict(d)})")
+            distinct.add(("topo", i))
+        for i in coq("topo_same", "list (str * list str) * list (str * list str)", "model_topo_same", items, sh_terms):
+            ck.failure("model-toposort-order-dependent", "the model contradicts C12_toposort_flatten_perm_invariant", {"op": ops[i]})
+
+        # ---- clusters: sort_classes, SCC inside the handler, final modules
+        same_everywhere("clusters", lambda x: (x.get("modules"), x.get("sorted_group"), (x.get("run_err") or {}).get("err"),
+                                               (x.get("sorted_group_err") or {}).get("err")))
+        items, terms, sitems, sterms = [], [], [], []
+        for si, res in enumerate(per_seed):
+            for i in idx("clusters"):
+                x = res[i]
+                e = (x.get("run_err") or {}).get("err")
+                if e is not None and e not in ERR:
+                    ck.failure("clusters-unexpected-exception", f"DesignateClassPackages raised {e}", {"op": ops[i], "impl": x})
+                    continue
+                mods = clist(x.get("modules", []), lambda m: f"({cstr(m[0])}, {copt(m[1], cstr)})", "(str * option str)")
+                names = clist(x["names"], lambda m: f"({cstr(m[0])}, {cstr(m[1])})", "(str * str)")
+                items.append((si, i))
+                terms.append(f"({c_lstr(x['vorder'])}, {c_dict(x['E'])}, {c_dict(x['D'])}, {names}, {c_sum(mods, e)})")
+                distinct.add(("clusters", i, tuple(x["vorder"])))
+                if "sort_group" in ops[i] and si == 0:
+                    ge = (x.get("sorted_group_err") or {}).get("err")
+                    sitems.append((si, i))
+                    sterms.append(f"({c_dict(x['D'])}, {c_lstr(ops[i]['sort_group'])}, {c_sum(c_lstr(x.get('sorted_group', [])), ge)})")
+        for si, i in coq("clusters_agree", "list str * list (str * list str) * list (str * list str) * list (str * str) * (list (str * option str) + nat)",
+                         "agree_clusters", items, terms, shard=40):
+            ck.failure("corr-clusters", f"model and implementation disagree on group_by_strong_components (seed {core_seeds[si]})",
+                       {"op": ops[i], "impl": per_seed[si][i], "hashseed": core_seeds[si]})
+        for si, i in coq("sortcls_agree", "list (str * list str) * list str * (list str + nat)", "agree_sort_classes", sitems, sterms):
+            ck.failure("corr-sort-classes", "model and implementation disagree on sort_classes", {"op": ops[i], "impl": per_seed[si][i]})
+
+        same_everywhere("class_list", lambda x: (x.get("ok"), x.get("err")))
+        items = idx("class_list")
+        terms = [f"({c_dict(per_seed[0][i]['D'])}, {c_lstr([s['qname'] for s in ops[i]['classes']])}, "
+                 f"{c_sum(c_lstr(per_seed[0][i].get('ok', [])), err_of(per_seed[0][i]))})" for i in items]
+        for i in coq("classlist_agree", "list (str * list str) * list str * (list str + nat)", "agree_class_list", items, terms):
+            ck.failure("corr-class-list", "model and implementation disagree on create_class_list", {"op": ops[i], "impl": per_seed[0][i]})
+
+        # ---- native types
+        items, terms = [], []
+        for si, res in enumerate(per_seed):
+            for i in idx("types"):
+                x = res[i]
+                if not x["stable"]:
+                    ck.failure("native-types-unstable", "Attr.native_types returned two different orders in one process", {"op": ops[i], "impl": x})
+                items.append((si, i))
+                terms.append(f"({c_lstr(x['native'])}, {c_lstr(x['sorted'])})")
+                distinct.add(("types", tuple(x["native"])))
+        for si, i in coq("types_agree", "list str * list str", "agree_types", items, terms):
+            ck.failure("corr-sort-types", "model and implementation disagree on sort_types(native_types)", {"op": ops[i], "impl": per_seed[si][i]})
+        unguarded = {(si, i) for si, i in coq("types_guard", "list str * list str", "guard_types", items, terms)}
+        tie_orders = set()
         for i in idx("types"):
-            x = res[i]
-            if not x["stable"]:
-                ck.failure("native-types-unstable", "Attr.native_types returned two different orders in one process", {"op": ops[i], "impl": x})
-            items.append((si, i))
-            terms.append(f"({c_lstr(x['native'])}, {c_lstr(x['sorted'])})")
-            distinct.add(("types", tuple(x["native"])))
-    for si, i in coq("types_agree", "list str * list str", "agree_types", items, terms):
-        ck.failure("corr-sort-types", "model and implementation disagree on sort_types(native_types)", {"op": ops[i], "impl": per_seed[si][i]})
-    unguarded = {(si, i) for si, i in coq("types_guard", "list str * list str", "guard_types", items, terms)}
-    tie_orders = set()
-    for i in idx("types"):
-        a = per_seed[0][i]
-        for si in range(1, len(per_seed)):
-            b = per_seed[si][i]
-            if a["sorted"] != b["sorted"]:
-                cls = "native-types-tie-order" if (0, i) in unguarded else "native-types-seed-dependent"
-                ck.failure(cls, f"sort_types(native_types) differs between hash seeds {core_seeds[0]} and {core_seeds[si]}",
-                           {"op": ops[i], "a": a, "b": b})
-        for si in range(len(per_seed)):
-            if (0, i) in unguarded:
-                tie_orders.add(tuple(t for t in per_seed[si][i]["native"] if t in ("bytes", "object")))
-    d = [per_seed[0][i] for i in idx("types_direct")][-3:]
-    dterms = [f"({c_lstr(ops[i]['order'])}, {c_lstr(per_seed[0][i]['sorted'])})" for i in idx("types_direct")]
-    for i in coq("types_direct", "list str * list str", "agree_types", idx("types_direct"), dterms):
-        ck.failure("corr-sort-types", "model and implementation disagree on sort_types (explicit order)", {"op": ops[i], "impl": per_seed[0][i]})
-    ck.cov["native_types_tie"] = {
-        "function_level_witness_reproduced": d[0]["sorted"] != d[1]["sorted"][::-1] or d[0]["sorted"] == ["bytes", "object"],
-        "sort_types([bytes,object])": d[0]["sorted"], "sort_types([object,bytes])": d[1]["sorted"],
-        "orders_of_{bytes,object}_seen_in_native_types_over_all_seeds": sorted(map(list, tie_orders)),
-        "unguarded_cases": len({i for _, i in unguarded}),
-        "verdict": ("the relative order of bytes and object in list(set(types)) varied between the runs (known finding native-types-tie-order)"
-                    if len(tie_orders) > 1 else "the relative order of bytes and object did not vary in this run")}
+            a = per_seed[0][i]
+            for si in range(1, len(per_seed)):
+                b = per_seed[si][i]
+                if a["sorted"] != b["sorted"]:
+                    cls = "native-types-tie-order" if (0, i) in unguarded else "native-types-seed-dependent"
+                    ck.failure(cls, f"sort_types(native_types) differs between hash seeds {core_seeds[0]} and {core_seeds[si]}",
+                               {"op": ops[i], "a": a, "b": b})
+            for si in range(len(per_seed)):
+                if (0, i) in unguarded:
+                    tie_orders.add(tuple(t for t in per_seed[si][i]["native"] if t in ("bytes", "object")))
+        d = [per_seed[0][i] for i in idx("types_direct")][-3:]
+        dterms = [f"({c_lstr(ops[i]['order'])}, {c_lstr(per_seed[0][i]['sorted'])})" for i in idx("types_direct")]
+        for i in coq("types_direct", "list str * list str", "agree_types", idx("types_direct"), dterms):
+            ck.failure("corr-sort-types", "model and implementation disagree on sort_types (explicit order)", {"op": ops[i], "impl": per_seed[0][i]})
+        ck.cov["native_types_tie"] = {
+            "function_level_witness_reproduced": d[0]["sorted"] != d[1]["sorted"][::-1] or d[0]["sorted"] == ["bytes", "object"],
+            "sort_types([bytes,object])": d[0]["sorted"], "sort_types([object,bytes])": d[1]["sorted"],
+            "orders_of_{bytes,object}_seen_in_native_types_over_all_seeds": sorted(map(list, tie_orders)),
+            "unguarded_cases": len({i for _, i in unguarded}),
+            "verdict": ("the relative order of bytes and object in list(set(types)) varied between the runs (known finding native-types-tie-order)"
+                        if len(tie_orders) > 1 else "the relative order of bytes and object did not vary in this run")}
 
-    # ---- sequence renumbering
-    same_everywhere("reset", lambda x: x.get("ok"))
-    items = idx("reset") + idx("reset_relabel")
-    terms = [f"({c_lon(ops[i]['base'] or [])}, {c_lon(ops[i]['attrs'])}, {c_lon(per_seed[0][i].get('ok', []))})" for i in items]
-    for i in items:
-        if "ok" not in per_seed[0][i]:
-            ck.failure("reset-unexpected-exception", "ResetAttributeSequenceNumbers raised", {"op": ops[i], "impl": per_seed[0][i]})
-        distinct.add(("reset", json.dumps(ops[i]["attrs"]), json.dumps(ops[i]["base"])))
-    for i in coq("reset_agree", "list (option N) * list (option N) * list (option N)", "agree_reset", items, terms):
-        ck.failure("corr-reset-sequence-numbers", "model and implementation disagree on ResetAttributeSequenceNumbers",
-                   {"op": ops[i], "impl": per_seed[0][i]})
-    for i in idx("reset_relabel"):
-        j = ops[i]["of"]
-        if per_seed[0][i].get("ok") != per_seed[0][j].get("ok"):
-            ck.failure("reset-label-dependent", "sequence numbers change under an injective relabelling of the ids",
-                       {"a": ops[j], "ra": per_seed[0][j], "b": ops[i], "rb": per_seed[0][i]})
+        # ---- sequence renumbering
+        same_everywhere("reset", lambda x: x.get("ok"))
+        items = idx("reset") + idx("reset_relabel")
+        terms = [f"({c_lon(ops[i]['base'] or [])}, {c_lon(ops[i]['attrs'])}, {c_lon(per_seed[0][i].get('ok', []))})" for i in items]
+        for i in items:
+            if "ok" not in per_seed[0][i]:
+                ck.failure("reset-unexpected-exception", "ResetAttributeSequenceNumbers raised", {"op": ops[i], "impl": per_seed[0][i]})
+            distinct.add(("reset", json.dumps(ops[i]["attrs"]), json.dumps(ops[i]["base"])))
+        for i in coq("reset_agree", "list (option N) * list (option N) * list (option N)", "agree_reset", items, terms):
+            ck.failure("corr-reset-sequence-numbers", "model and implementation disagree on ResetAttributeSequenceNumbers",
+                       {"op": ops[i], "impl": per_seed[0][i]})
+        for i in idx("reset_relabel"):
+            j = ops[i]["of"]
+            if per_seed[0][i].get("ok") != per_seed[0][j].get("ok"):
+                ck.failure("reset-label-dependent", "sequence numbers change under an injective relabelling of the ids",
+                           {"a": ops[j], "ra": per_seed[0][j], "b": ops[i], "rb": per_seed[0][i]})
 
-    # ---- imports
-    same_everywhere("imports", lambda x: x.get("ok"))
-    items = idx("imports")
-    pr = lambda l: clist(l, lambda m: f"({cstr(m[0])}, {cstr(m[1])})", "(str * str)")  # noqa: E731
-    terms = [f"({pr(per_seed[0][i]['names'])}, {pr(per_seed[0][i]['ok'])})" for i in items]
-    for i in coq("imports_agree", "list (str * str) * list (str * str)", "agree_imports", items, terms):
-        ck.failure("corr-sorted-imports", "model and implementation disagree on sorted_imports", {"op": ops[i], "impl": per_seed[0][i]})
-    t_cores = time.time() - t_start
+        # ---- imports
+        same_everywhere("imports", lambda x: x.get("ok"))
+        items = idx("imports")
+        pr = lambda l: clist(l, lambda m: f"({cstr(m[0])}, {cstr(m[1])})", "(str * str)")  # noqa: E731
+        terms = [f"({pr(per_seed[0][i]['names'])}, {pr(per_seed[0][i]['ok'])})" for i in items]
+        for i in coq("imports_agree", "list (str * str) * list (str * str)", "agree_imports", items, terms):
+            ck.failure("corr-sorted-imports", "model and implementation disagree on sorted_imports", {"op": ops[i], "impl": per_seed[0][i]})
+        t_cores = time.time() - t_start
+
+        return {"ops": ops, "kinds": kinds, "per_seed": per_seed, "idx": idx, "t_cores": t_cores, "coq_times": coq_times,
+                "core_evals": core_evals}
+
+    bg = cf.ThreadPoolExecutor(max_workers=1)
+    cores_future = bg.submit(cores_part, random.Random(ck.seed * 7919 + 12))
 
     # ================================================================== B. the real pipeline
     fsets = fixture_sets()
@@ -875,7 +906,8 @@ def run(ck: Check):
             reset_items.append(s)
             reset_terms.append(f"({c_lon([])}, {c_lon(sids)}, {c_lon(seqs)})")
         # the faithful model, given the ids the implementation really used, yields exactly the generated numbers
-        for s in coq("idreuse_reset", "list (option N) * list (option N) * list (option N)", "agree_reset", reset_items, reset_terms, shard=2):
+        for s in [reset_items[i] for i in coq_bad_indices("c12_idreuse_reset", IMPORTS, "", "list (option N) * list (option N) * list (option N)",
+                                                               "agree_reset", reset_terms, shard=2)]:
             ck.failure("corr-reset-sequence-numbers", "model and implementation disagree on the sequence numbers of the id-reuse witness", {"seed": s})
         bad = [x for x in runs if x["distinct"] != 2 * K]
         if bad:
@@ -892,6 +924,12 @@ def run(ck: Check):
                         "distinct_sequence_numbers_per_run": [[y["hashseed"], y["distinct"]] for y in runs]})
         idr["wall_s"] = round(time.time() - t_id, 1)
         ck.cov["id_reuse_search"] = idr
+
+    # ================================================================== join the cores thread
+    L = cores_future.result()
+    bg.shutdown()
+    ops, per_seed, idx, t_cores, coq_times = L["ops"], L["per_seed"], L["idx"], L["t_cores"], L["coq_times"]
+    ck.cov["evaluations"] += L["core_evals"]
 
     # ================================================================== evidence
     ck.cov["distinct_nontrivial"] = len(distinct)
